@@ -17,6 +17,7 @@ type Oblig struct {
 	Guard  Term // program point reached
 	Goal   Term
 	Unit   string
+	Upto   int    // only hypotheses asserted before this index are in scope (program order)
 	Cand   int    // >=0: Houdini candidate obligation for candidate id
 	Note   string // human readable
 	Status string // filled by solver: unsat/sat/unknown/timeout
@@ -53,6 +54,7 @@ type VC struct {
 	decls   []string
 	asserts []string
 	adef    []string // parallel to asserts: symbol defined by the assert ("" = assumption)
+	aglobal []bool   // parallel to asserts: axiom valid at every program point
 	obligs  []*Oblig
 	cands   []*Candidate
 	n       int
@@ -95,6 +97,17 @@ func (vc *VC) assert(t Term) {
 	}
 	vc.asserts = append(vc.asserts, t)
 	vc.adef = append(vc.adef, "")
+	vc.aglobal = append(vc.aglobal, false)
+}
+
+// assertGlobal adds an axiom that does not depend on the program point.
+func (vc *VC) assertGlobal(t Term) {
+	if t == "true" || t == "" {
+		return
+	}
+	vc.asserts = append(vc.asserts, t)
+	vc.adef = append(vc.adef, "")
+	vc.aglobal = append(vc.aglobal, true)
 }
 
 // assertDef records a (possibly guarded) definition of sym; hypothesis slicing
@@ -105,6 +118,7 @@ func (vc *VC) assertDef(sym string, t Term) {
 	}
 	vc.asserts = append(vc.asserts, t)
 	vc.adef = append(vc.adef, sym)
+	vc.aglobal = append(vc.aglobal, false)
 }
 
 // defEq asserts guard => a == b leaf by leaf, each as a definition of a's leaf.
@@ -156,7 +170,7 @@ func (vc *VC) oblige(st *State, kind, label, detail, pos string, goal Term) *Obl
 	if k := vc.names[base]; k > 1 {
 		name = fmt.Sprintf("%s#%s[%s#%d]", vc.unit, kind, detail, k)
 	}
-	o := &Oblig{Name: name, Kind: kind, Label: label, Pos: pos, Guard: st.guard, Goal: goal, Unit: vc.unit, Cand: -1}
+	o := &Oblig{Name: name, Kind: kind, Label: label, Pos: pos, Guard: st.guard, Goal: goal, Unit: vc.unit, Cand: -1, Upto: len(vc.asserts)}
 	vc.obligs = append(vc.obligs, o)
 	return o
 }
